@@ -8,6 +8,7 @@ import Poupool.Proofs.EcoArith
 import Poupool.Proofs.EcoLoopStep
 import Poupool.Proofs.EcoDayInv
 import Poupool.Proofs.EcoDayHeat
+import Poupool.Proofs.EcoDayHeat2
 
 namespace Poupool.Eco
 open Poupool.Generated
@@ -431,5 +432,236 @@ theorem C10_heating_entry_exit (eps : Int) (s : Loop) (dt : Int) :
 example : (ecoStep 0 (ecoFinal 0 (Loop.start 0 cexParams).1 (cexPrefix.take 5)) (.heat 1000000)).1.phase = .heating
     ∧ (ecoFinal 0 (Loop.start 0 cexParams).1 (cexPrefix.take 5)).phase = .waiting
     ∧ EcoConfig.heatingDelayToEcoUs = 60000000 := by decide
+
+/-! ### (f) whole days WITH a heating interlude (Proofs/EcoDayHeat2.lean)
+
+A *complete interlude* is `interludeEvs dt polls dt' jd j1 j2 = heat dt :: polls ++ [heatEnd dt', tick jd j1 j2]`:
+`heat` arrives `dt` after the last handler of eco_waiting / eco_normal, the `polls` of heating_running follow, then
+`heating_delay` and the expiry of the 60 s delay (handled `jd` late) which re-enters `eco_compute`.  `InterludeOK` are
+its side conditions (`heat` / `heating_delay` arrive before the armed poll is handled, every poll is handled at most `eps`
+late and before the reset, `0 ≤ jd ≤ eps`).  Constants (µs):
+  `heatLoss eps            = 70 s + 3 eps`                                   (≤ 71.8 s at eps = 0.6 s)
+  `slackPlan period eps    = 5 s + period * (10 s + 1 µs) + (7 * period + 9) * eps`     (≤ 152.40001 s)
+  `slackLoHeat period eps  = 10 s + 3 eps + 2 * slackPlan period eps`        (≤ 174.60001 s for period ≤ 5; 316.60002 s at period = 10)
+  `slackHiHeat period eps  = 100 s + (10 * period + 22) * eps`               (≤ 173.2 s). -/
+
+/-- Interlude accounting (any state in eco_waiting / eco_normal, any settings): a complete interlude that is over before
+the reset ends in `eco_compute` with the pump still on, in the same day; the pump-on time of the day has grown by EXACTLY
+the time from `heat` to the expiry of the delay (plus `dt` if the pump was running), the accounted filtration duration by
+that time minus at most `heatLoss eps = 70 s + 3 eps` (the 60 s delay, one poll period lost at `heating_delay`, three
+handler latenesses), and never by more.  Together with the time since the last poll that `heat` drops in eco_normal
+(`≤ dt ≤ 10 s + eps`) and the 5 s compute delay this is the 65–87 s per interlude observed on the real code. -/
+theorem C10_heating_interlude_accounting (eps per delay : Int) (s : Loop) (dt : Int) (polls : List Ev) (dt' jd j1 j2 : Int)
+    (he : 0 ≤ eps) (hph : s.phase = .waiting ∨ s.phase = .normal)
+    (hper : s.eco.period = per) (hdel : s.eco.filtration.delay = delay) (hpd : s.eco.periodDuration = divNearest delay per)
+    (hok : InterludeOK eps s dt polls dt' jd)
+    (hnr : (ecoFinal eps s (interludeEvs dt polls dt' jd j1 j2)).now < s.eco.nextReset) :
+    (ecoFinal eps s (interludeEvs dt polls dt' jd j1 j2)).phase = .compute
+    ∧ (ecoFinal eps s (interludeEvs dt polls dt' jd j1 j2)).pumpOn = true
+    ∧ (ecoFinal eps s (interludeEvs dt polls dt' jd j1 j2)).full = s.full
+    ∧ (ecoFinal eps s (interludeEvs dt polls dt' jd j1 j2)).days = s.days
+    ∧ (ecoFinal eps s (interludeEvs dt polls dt' jd j1 j2)).onToday
+        = s.onToday + (if s.pumpOn then dt else 0) + ((ecoFinal eps s (interludeEvs dt polls dt' jd j1 j2)).now - (s.now + dt))
+    ∧ s.eco.filtration.duration + ((ecoFinal eps s (interludeEvs dt polls dt' jd j1 j2)).now - (s.now + dt)) - heatLoss eps
+        ≤ (ecoFinal eps s (interludeEvs dt polls dt' jd j1 j2)).eco.filtration.duration
+    ∧ (ecoFinal eps s (interludeEvs dt polls dt' jd j1 j2)).eco.filtration.duration
+        ≤ s.eco.filtration.duration + ((ecoFinal eps s (interludeEvs dt polls dt' jd j1 j2)).now - (s.now + dt))
+    ∧ heatLoss eps = 70 * US + 3 * eps := by
+  obtain ⟨a1, a2, a3, a4, _, a6, a7, a8, _⟩ :=
+    interlude_accounting eps per delay s dt polls dt' jd j1 j2 he hph hper hdel hpd hok hnr
+  refine ⟨a1, a2, a3, a4, a6, a7, a8, ?_⟩
+  have hU : US = 1000000 := rfl
+  have hpoll := cfg_poll
+  have hhd := cfg_hd
+  unfold heatLoss; omega
+
+/-- the run of the examples of this section: eco entered at 23:59:50, the reset poll starts a whole day (7 h quota,
+8 periods), `heat` arrives 1 s after a poll of eco_waiting, three polls of heating_running, `heating_delay` 2 s after the
+last poll, the delay expires 0.7 ms late; every handler at most 1 ms late -/
+def exPre : List Ev := List.replicate 5 (.tick 500 100 100)
+def exPolls : List Ev := [.tick 300 0 0, .tick 1000 0 0, .tick 0 0 0]
+def exHeat : Loop := ecoFinal 1000 (Loop.start 1000 cexParams).1 exPre
+
+example : exHeat.phase = .waiting ∧ exHeat.full = true ∧ InterludeOK 1000 exHeat 1000000 exPolls 2000000 700
+    ∧ (ecoFinal 1000 exHeat (interludeEvs 1000000 exPolls 2000000 700 0 0)).now < exHeat.eco.nextReset
+    ∧ (ecoFinal 1000 exHeat (interludeEvs 1000000 exPolls 2000000 700 0 0)).now - (exHeat.now + 1000000) = 82002000
+    ∧ (ecoFinal 1000 exHeat (interludeEvs 1000000 exPolls 2000000 700 0 0)).onToday - exHeat.onToday = 82002000
+    ∧ (ecoFinal 1000 exHeat (interludeEvs 1000000 exPolls 2000000 700 0 0)).eco.filtration.duration
+        - exHeat.eco.filtration.duration = 20001000 := by decide
+
+/- FULL statement aimed at (not proved in this generality):
+   for every run made of ticks and complete heating interludes (any number per day, any day of the run), every handler at
+   most `eps ≤ 0.6 s` late, every whole day `r` satisfies
+     `min daily 24h - 180 s ≤ r.on ≤ max (min daily 24h) (pump-on time at the end of the day's last interlude) + 180 s`.
+   What is proved below: the first day of the run that contains an interlude, ONE complete interlude in that day, over
+   before the reset.  `C10_quota_heating_day_partial`: the interlude is over before the accounted duration exceeds the quota
+   by more than a poll (`hub`) — two-sided bound around `min daily 24h`.  `C10_quota_heating_day_monitor_partial`: no `hub`,
+   the bound in the monitor's form, and the late regime of the open finding (quota used up when the delay expires: the pump
+   stops after the compute delay).  Missing: several interludes in one day / heating days after the first one of the run
+   (the invariants `Inv` / `DayInv` are re-established for the shadows only until the next reset), an interlude that spans
+   the reset, and a lower slack below 180 s for `period ≥ 6`: `slackLoHeat` adds the slack of the plan in progress at `heat`
+   to the slack of the plan made after the interlude (each with one poll of overshoot per period), below 180 s only for
+   `period ≤ 5`; when the quota is still reachable after the interlude the slack is `slackPlan < 180 s` for every setting. -/
+
+/-- C10, a whole day with one complete heating interlude (partial, see the comment above).  Any settings the dispatcher
+lets through, any tick-only history `pre` (every handler at most `eps ≤ 0.6 s` late) that ends in a whole day in
+eco_waiting / eco_normal, a complete interlude there that is over before the reset (`hnr`) and before the accounted
+duration exceeds `daily + 10 s + eps` (`hub`), then any tick-only continuation `post`.  Then
+ * the record `r` of that day — the one right above the days finished before `heat`, whenever the continuation reaches the
+   reset — is a whole day with an interlude (`plain = false`) and
+     `min daily 24h - slackLoHeat ≤ r.on ≤ min daily 24h + slackHiHeat`,
+   and `daily - slackPlan ≤ r.on` if the quota was still reachable when the delay expired (`daily ≤ pump-on time + time left`);
+ * at every instant: either that day is still running (same finished days, `full`, not plain; the pump has run at least the
+   accounted duration plus what was unaccounted when the delay expired; the accounted duration is at most `daily + 10 s + eps`)
+   or its record exists and satisfies the bounds;
+ * `slackHiHeat < 180 s` and `slackPlan < 180 s` for every period count 1..10; `slackLoHeat < 180 s` for period ≤ 5. -/
+theorem C10_quota_heating_day_partial (eps : Int) (p : Params) (pre : List Ev) (dt : Int) (polls : List Ev) (dt' jd j1 j2 : Int)
+    (post : List Ev) (he : 0 ≤ eps) (he2 : eps ≤ 600000)
+    (hd : 1 ≤ p.dailyS) (hp1 : 1 ≤ p.period) (hp2 : p.period ≤ 10) (hel : 0 ≤ p.elapsedS)
+    (hs : p.start < nextResetAt p.start p.resetHour)
+    (hpre : ∀ e ∈ pre, TickOK eps e) (hpost : ∀ e ∈ post, TickOK eps e)
+    (hfull : (ecoFinal eps (Loop.start eps p).1 pre).full = true)
+    (hph : (ecoFinal eps (Loop.start eps p).1 pre).phase = .waiting ∨ (ecoFinal eps (Loop.start eps p).1 pre).phase = .normal)
+    (hok : InterludeOK eps (ecoFinal eps (Loop.start eps p).1 pre) dt polls dt' jd)
+    (hnr : (ecoFinal eps (Loop.start eps p).1 (pre ++ interludeEvs dt polls dt' jd j1 j2)).now
+        < (ecoFinal eps (Loop.start eps p).1 pre).eco.nextReset)
+    (hub : (ecoFinal eps (Loop.start eps p).1 (pre ++ interludeEvs dt polls dt' jd j1 j2)).eco.filtration.duration
+        ≤ p.dailyS * US + EcoConfig.pollDelayUs + eps) :
+    (∀ r, (r :: (ecoFinal eps (Loop.start eps p).1 pre).days)
+          <:+ (ecoFinal eps (Loop.start eps p).1 (pre ++ interludeEvs dt polls dt' jd j1 j2 ++ post)).days →
+        r.full = true ∧ r.plain = false
+        ∧ min (p.dailyS * US) DAY - slackLoHeat p.period eps ≤ r.on
+        ∧ (p.dailyS * US ≤ (ecoFinal eps (Loop.start eps p).1 (pre ++ interludeEvs dt polls dt' jd j1 j2)).onToday
+              + ((ecoFinal eps (Loop.start eps p).1 pre).eco.nextReset
+                 - (ecoFinal eps (Loop.start eps p).1 (pre ++ interludeEvs dt polls dt' jd j1 j2)).now) →
+            p.dailyS * US - slackPlan p.period eps ≤ r.on)
+        ∧ r.on ≤ min (p.dailyS * US) DAY + slackHiHeat p.period eps)
+    ∧ (((ecoFinal eps (Loop.start eps p).1 (pre ++ interludeEvs dt polls dt' jd j1 j2 ++ post)).days
+            = (ecoFinal eps (Loop.start eps p).1 pre).days
+          ∧ (ecoFinal eps (Loop.start eps p).1 (pre ++ interludeEvs dt polls dt' jd j1 j2 ++ post)).full = true
+          ∧ (ecoFinal eps (Loop.start eps p).1 (pre ++ interludeEvs dt polls dt' jd j1 j2 ++ post)).gPlain = false
+          ∧ (ecoFinal eps (Loop.start eps p).1 (pre ++ interludeEvs dt polls dt' jd j1 j2 ++ post)).eco.filtration.duration
+              + ((ecoFinal eps (Loop.start eps p).1 (pre ++ interludeEvs dt polls dt' jd j1 j2)).onToday
+                 - (ecoFinal eps (Loop.start eps p).1 (pre ++ interludeEvs dt polls dt' jd j1 j2)).eco.filtration.duration)
+              ≤ (ecoFinal eps (Loop.start eps p).1 (pre ++ interludeEvs dt polls dt' jd j1 j2 ++ post)).onToday
+          ∧ (ecoFinal eps (Loop.start eps p).1 (pre ++ interludeEvs dt polls dt' jd j1 j2 ++ post)).eco.filtration.duration
+              ≤ p.dailyS * US + EcoConfig.pollDelayUs + eps)
+        ∨ ∃ r, (r :: (ecoFinal eps (Loop.start eps p).1 pre).days)
+            <:+ (ecoFinal eps (Loop.start eps p).1 (pre ++ interludeEvs dt polls dt' jd j1 j2 ++ post)).days)
+    ∧ slackHiHeat p.period eps < 180 * US ∧ slackPlan p.period eps < 180 * US
+    ∧ (p.period ≤ 5 → slackLoHeat p.period eps < 180 * US) := by
+  have hU : US = 1000000 := rfl
+  have hst : Static eps p.period (p.dailyS * US) := ⟨he, he2, hp1, hp2, by rw [hU]; omega⟩
+  have hi0 := start_inv eps p he (by have : HOUR = 3600000000 := rfl; omega) (by omega) hs
+  obtain ⟨hinv, hday⟩ := day_run eps p.period (p.dailyS * US) hst pre _ hi0 (day_start eps p hst hel hs) hpre
+  have h0 := run_dur_nonneg eps he2 pre _ hi0 (start_dur_nonneg eps p hel hs) hpre
+  obtain ⟨_, _, _, c4, _, c6, _, c8⟩ := slack_heat_values p.period eps he he2 hp1 hp2
+  rw [ecoFinal_append, ecoFinal_append] at *
+  refine ⟨?_, ?_, c6, c4, fun h5 => (c8 h5).2⟩
+  · intro r hr
+    obtain ⟨b1, b2, b3, b4, b5, _⟩ := heat_day_early eps p.period (p.dailyS * US) _ hst hinv hday hfull hph h0
+      dt polls dt' jd j1 j2 hok hnr hub post hpost r hr
+    exact ⟨b1, b2, b3, b4, b5⟩
+  · rcases heat_day_early_run eps p.period (p.dailyS * US) _ hst hinv hday hfull hph h0
+      dt polls dt' jd j1 j2 hok hnr hub post hpost with hA | ⟨r, hr, _⟩
+    · exact Or.inl hA
+    · exact Or.inr ⟨r, hr⟩
+
+def exPost : List Ev := [.tick 10 20 30, .tick 1 2 3]
+
+/-- the hypotheses of `C10_quota_heating_day_partial` hold on the run of this section (quota 7 h; when the delay expires
+20.001 s are accounted, 87.0027 s of pump-on time, and the quota is still reachable) … -/
+example : (0:Int) ≤ 1000 ∧ (1000:Int) ≤ 600000 ∧ 1 ≤ cexParams.dailyS ∧ 1 ≤ cexParams.period ∧ cexParams.period ≤ 10
+    ∧ 0 ≤ cexParams.elapsedS ∧ cexParams.start < nextResetAt cexParams.start cexParams.resetHour
+    ∧ (∀ e ∈ exPre, TickOK 1000 e) ∧ (∀ e ∈ exPost, TickOK 1000 e)
+    ∧ (ecoFinal 1000 (Loop.start 1000 cexParams).1 exPre).full = true
+    ∧ (ecoFinal 1000 (Loop.start 1000 cexParams).1 exPre).phase = .waiting
+    ∧ InterludeOK 1000 (ecoFinal 1000 (Loop.start 1000 cexParams).1 exPre) 1000000 exPolls 2000000 700
+    ∧ (ecoFinal 1000 (Loop.start 1000 cexParams).1 (exPre ++ interludeEvs 1000000 exPolls 2000000 700 0 0)).now
+        < (ecoFinal 1000 (Loop.start 1000 cexParams).1 exPre).eco.nextReset
+    ∧ (ecoFinal 1000 (Loop.start 1000 cexParams).1 (exPre ++ interludeEvs 1000000 exPolls 2000000 700 0 0)).eco.filtration.duration
+        ≤ cexParams.dailyS * US + EcoConfig.pollDelayUs + 1000
+    ∧ cexParams.dailyS * US ≤ (ecoFinal 1000 (Loop.start 1000 cexParams).1 (exPre ++ interludeEvs 1000000 exPolls 2000000 700 0 0)).onToday
+        + ((ecoFinal 1000 (Loop.start 1000 cexParams).1 exPre).eco.nextReset
+           - (ecoFinal 1000 (Loop.start 1000 cexParams).1 (exPre ++ interludeEvs 1000000 exPolls 2000000 700 0 0)).now) := by
+  refine ⟨by decide, by decide, by decide, by decide, by decide, by decide, by decide, ?_, ?_,
+    by decide, by decide, by decide, by decide, by decide, by decide⟩
+  · intro e he
+    rw [List.eq_of_mem_replicate he]; exact ⟨by decide, by decide, by decide, by decide, by decide, by decide⟩
+  · intro e he
+    simp only [exPost, List.mem_cons, List.mem_nil_iff, or_false] at he
+    rcases he with h | h <;> subst h <;> exact ⟨by decide, by decide, by decide, by decide, by decide, by decide⟩
+
+/-- … and two ticks later (eco_compute → eco_waiting, first poll) the day is still running: the pump ran through the compute
+delay (92.00271 s of pump-on time for 20.001 s accounted), no day was finished -/
+example : (ecoFinal 1000 (Loop.start 1000 cexParams).1 (exPre ++ interludeEvs 1000000 exPolls 2000000 700 0 0 ++ exPost)).days.length
+      = (ecoFinal 1000 (Loop.start 1000 cexParams).1 exPre).days.length
+    ∧ (ecoFinal 1000 (Loop.start 1000 cexParams).1 (exPre ++ interludeEvs 1000000 exPolls 2000000 700 0 0 ++ exPost)).gPlain = false
+    ∧ (ecoFinal 1000 (Loop.start 1000 cexParams).1 (exPre ++ interludeEvs 1000000 exPolls 2000000 700 0 0 ++ exPost)).onToday = 92002710
+    ∧ (ecoFinal 1000 (Loop.start 1000 cexParams).1 (exPre ++ interludeEvs 1000000 exPolls 2000000 700 0 0 ++ exPost)).eco.filtration.duration
+        = 20001000 := by decide
+
+example : slackPlan 10 600000 = 152400010 ∧ slackLoHeat 5 600000 = 174600010 ∧ slackLoHeat 10 600000 = 316600020
+    ∧ slackLoHeat 3 600000 = 117800006 ∧ slackHiHeat 10 600000 = 173200000 ∧ heatLoss 600000 = 71800000 := by decide
+
+/-- C10, a whole day with one complete heating interlude, BOTH regimes, in the form of the monitor of checks/c10.py
+(partial only in the shape of the run, see the comment above `C10_quota_heating_day_partial`).  Same hypotheses without
+`hub`: whatever the accounted duration is when the interlude's delay expires (state `c`), the record `r` of that day satisfies
+  `min daily 24h - slackLoHeat ≤ r.on ≤ max (min daily 24h) c.onToday + slackHiHeat`,   `slackHiHeat < 180 s`;
+and in the late regime of the open finding (`daily ≤ c` accounted duration: the quota is used up when the delay expires) the
+pump stops after the compute delay and stays off until the reset:
+  `daily ≤ r.on`  and  `c.onToday ≤ r.on ≤ c.onToday + 5 s + eps`
+— the pump-on time of the day exceeds the quota by exactly what the interlude added (no bound in terms of the quota
+exists: `C10_quota_literal_upper_late_heating_counterexample`), and by nothing more than the compute delay afterwards. -/
+theorem C10_quota_heating_day_monitor_partial (eps : Int) (p : Params) (pre : List Ev) (dt : Int) (polls : List Ev)
+    (dt' jd j1 j2 : Int) (post : List Ev) (he : 0 ≤ eps) (he2 : eps ≤ 600000)
+    (hd : 1 ≤ p.dailyS) (hp1 : 1 ≤ p.period) (hp2 : p.period ≤ 10) (hel : 0 ≤ p.elapsedS)
+    (hs : p.start < nextResetAt p.start p.resetHour)
+    (hpre : ∀ e ∈ pre, TickOK eps e) (hpost : ∀ e ∈ post, TickOK eps e)
+    (hfull : (ecoFinal eps (Loop.start eps p).1 pre).full = true)
+    (hph : (ecoFinal eps (Loop.start eps p).1 pre).phase = .waiting ∨ (ecoFinal eps (Loop.start eps p).1 pre).phase = .normal)
+    (hok : InterludeOK eps (ecoFinal eps (Loop.start eps p).1 pre) dt polls dt' jd)
+    (hnr : (ecoFinal eps (Loop.start eps p).1 (pre ++ interludeEvs dt polls dt' jd j1 j2)).now
+        < (ecoFinal eps (Loop.start eps p).1 pre).eco.nextReset)
+    (r : DayRec)
+    (hr : (r :: (ecoFinal eps (Loop.start eps p).1 pre).days)
+        <:+ (ecoFinal eps (Loop.start eps p).1 (pre ++ interludeEvs dt polls dt' jd j1 j2 ++ post)).days) :
+    r.full = true ∧ r.plain = false
+    ∧ min (p.dailyS * US) DAY - slackLoHeat p.period eps ≤ r.on
+    ∧ r.on ≤ max (min (p.dailyS * US) DAY) (ecoFinal eps (Loop.start eps p).1 (pre ++ interludeEvs dt polls dt' jd j1 j2)).onToday
+        + slackHiHeat p.period eps
+    ∧ (p.dailyS * US ≤ (ecoFinal eps (Loop.start eps p).1 (pre ++ interludeEvs dt polls dt' jd j1 j2)).eco.filtration.duration →
+        p.dailyS * US ≤ r.on
+        ∧ (ecoFinal eps (Loop.start eps p).1 (pre ++ interludeEvs dt polls dt' jd j1 j2)).onToday ≤ r.on
+        ∧ r.on ≤ (ecoFinal eps (Loop.start eps p).1 (pre ++ interludeEvs dt polls dt' jd j1 j2)).onToday
+            + EcoConfig.computeDelayUs + eps)
+    ∧ slackHiHeat p.period eps < 180 * US ∧ (p.period ≤ 5 → slackLoHeat p.period eps < 180 * US) := by
+  have hU : US = 1000000 := rfl
+  have hst : Static eps p.period (p.dailyS * US) := ⟨he, he2, hp1, hp2, by rw [hU]; omega⟩
+  have hi0 := start_inv eps p he (by have : HOUR = 3600000000 := rfl; omega) (by omega) hs
+  obtain ⟨hinv, hday⟩ := day_run eps p.period (p.dailyS * US) hst pre _ hi0 (day_start eps p hst hel hs) hpre
+  have h0 := run_dur_nonneg eps he2 pre _ hi0 (start_dur_nonneg eps p hel hs) hpre
+  obtain ⟨_, _, _, _, _, c6, _, c8⟩ := slack_heat_values p.period eps he he2 hp1 hp2
+  rw [ecoFinal_append, ecoFinal_append] at *
+  obtain ⟨b1, b2, b3, b4, b5⟩ := heat_day_monitor eps p.period (p.dailyS * US) _ hst hinv hday hfull hph h0
+    dt polls dt' jd j1 j2 hok hnr post hpost r hr
+  exact ⟨b1, b2, b3, b4, b5, c6, fun h5 => (c8 h5).2⟩
+
+/-- late-regime run for the hypotheses: quota 1 s; when the delay expires 20.001 s are accounted (quota used up), the pump
+has run 82.002 s; after the compute delay it is stopped at 87.00201 s = 82.002 s + 5 s + 10 µs -/
+def lateParams : Params := ⟨1, 8, 0, 1, 0, 86390000000, 0⟩
+
+example : 1 ≤ lateParams.dailyS ∧ lateParams.start < nextResetAt lateParams.start lateParams.resetHour
+    ∧ (ecoFinal 1000 (Loop.start 1000 lateParams).1 exPre).full = true
+    ∧ (ecoFinal 1000 (Loop.start 1000 lateParams).1 exPre).phase = .waiting
+    ∧ InterludeOK 1000 (ecoFinal 1000 (Loop.start 1000 lateParams).1 exPre) 1000000 exPolls 2000000 700
+    ∧ (ecoFinal 1000 (Loop.start 1000 lateParams).1 (exPre ++ interludeEvs 1000000 exPolls 2000000 700 0 0)).now
+        < (ecoFinal 1000 (Loop.start 1000 lateParams).1 exPre).eco.nextReset
+    ∧ lateParams.dailyS * US
+        ≤ (ecoFinal 1000 (Loop.start 1000 lateParams).1 (exPre ++ interludeEvs 1000000 exPolls 2000000 700 0 0)).eco.filtration.duration
+    ∧ (ecoFinal 1000 (Loop.start 1000 lateParams).1 (exPre ++ interludeEvs 1000000 exPolls 2000000 700 0 0)).onToday = 82002000
+    ∧ (ecoFinal 1000 (Loop.start 1000 lateParams).1 (exPre ++ interludeEvs 1000000 exPolls 2000000 700 0 0 ++ exPost)).onToday = 87002010
+    ∧ (ecoFinal 1000 (Loop.start 1000 lateParams).1 (exPre ++ interludeEvs 1000000 exPolls 2000000 700 0 0 ++ exPost)).pumpOn = false := by
+  decide
 
 end Poupool.Eco
